@@ -22,6 +22,35 @@ REPLAY_DIR = os.environ.get('VERIF_REPLAY_DIR') or os.path.join(ROOT, 'replays')
 KNOWN = os.path.join(ROOT, 'known_findings.json')
 
 
+BASELINE_DIR = os.path.join(ROOT, 'baseline')
+
+
+def tree_hash() -> str:
+    """Hash of the fsic sources the obligations are generated from."""
+    import re as _re
+    root = os.path.join(os.environ.get('FSIC_REPO', '/repo'), 'fsic')
+    h = hashlib.sha256()
+    for d, _, files in sorted(os.walk(root)):
+        for f in sorted(files):
+            if f.endswith('.py'):
+                with open(os.path.join(d, f), 'rb') as fh:
+                    h.update(f.encode() + b'\0' + fh.read())
+    return h.hexdigest()
+
+
+def ob_key(o: dict) -> str:
+    import re as _re
+    return f"{o['contract']}|{o['scenario']}|" + _re.sub(r'@L\d+', '', o['name'])
+
+
+def load_baseline(pid: str) -> Optional[dict]:
+    p = os.path.join(BASELINE_DIR, f'{pid}.json')
+    if not os.path.exists(p):
+        return None
+    with open(p) as f:
+        return json.load(f)
+
+
 def load_known() -> List[dict]:
     if not os.path.exists(KNOWN):
         return []
@@ -183,6 +212,7 @@ def main(argv=None) -> int:
     ap.add_argument('--replay')
     ap.add_argument('--jobs', type=int, default=int(os.environ.get('VERIF_JOBS', '16')))
     ap.add_argument('--no-bounded', action='store_true')
+    ap.add_argument('--update-baseline', action='store_true', help='record the obligations discharged on this tree (deliberate act; DESIGN 7.3)')
     args = ap.parse_args(argv)
     pid = args.pid.upper()
     seed = int(os.environ.get('VERIF_SEED', '0'))
@@ -197,6 +227,7 @@ def main(argv=None) -> int:
         traceback.print_exc()
         return 3
     known = load_known()
+    prop.known_sigs = {k['sig'] for k in known if k.get('kind') == 'bounded' and k.get('status') == 'open'}
     tasks_d = []
     for i, c in enumerate(prop.contracts):
         for scen in c.scenarios():
@@ -280,6 +311,8 @@ def main(argv=None) -> int:
     # open deductive obligations: concretise on the real code, else definite-sat rule, else undecided
     undecided = []
     used_sigs = set()
+    baseline = load_baseline(pid)
+    cur_tree = tree_hash()
     for o in open_obs:
         prev = prop.expected_discharged(o) if hasattr(prop, 'expected_discharged') else True
         conc = None
@@ -303,6 +336,16 @@ def main(argv=None) -> int:
             violations.append((o['name'], path))
             lines.append(f"VIOLATION property={pid} replay={path}")
             lines.append(f"  obligation {o['name']} [{o['scenario']}] fails; replayed on the real code: case={json.dumps(v['case'], default=str)[:300]} expected={v['expected']!r} observed={v['observed']!r}")
+        elif o['status'] != 'failed' and baseline is not None and baseline['tree'] != cur_tree and ob_key(o) in baseline['discharged']:
+            # DESIGN 7.3: an obligation that is discharged on the pinned tree and is not discharged on a tree whose source differs
+            # (after the retry with 10x budget) is reported; the solver gave no model, so no input can be replayed
+            path = write_replay(pid, o['name'], {'property': pid, 'obligation': o['name'], 'contract': o['contract'], 'scenario': o['scenario'],
+                                                'path': o['path'], 'reason': 'discharged on the recorded baseline tree, not discharged on the current tree',
+                                                'baseline_tree': baseline['tree'], 'current_tree': cur_tree,
+                                                'solver_output': {'backend': o['backend'], 'model': o['model'], 'smt2': o.get('smt2')}})
+            violations.append((o['name'], path))
+            lines.append(f"VIOLATION property={pid} replay={path} no-failing-input-found")
+            lines.append(f"  obligation {o['name']} [{o['scenario']}] was discharged on the baseline tree and is not on this one ({o['backend']})")
         elif o['status'] == 'failed' and prev:
             path = write_replay(pid, o['name'], {'property': pid, 'obligation': o['name'], 'contract': o['contract'],
                                                 'scenario': o['scenario'], 'path': o['path'],
@@ -380,6 +423,7 @@ def main(argv=None) -> int:
         'rule': 'bounded layer: cases enumerated/sampled per check (bound stated per check); a case is non-trivial when it reaches the '
                 'guarded branch of the clause under test, distinct by canonical input; measured by the harness',
         'known_findings_printed': sorted(known_printed),
+        'tree_sha256': cur_tree, 'baseline_tree_sha256': baseline['tree'] if baseline else None,
         'findings_of_other_properties_observed': sorted(foreign_seen),
         'explanation': prop.explanation,
         'cross_checks': [{'name': o['name'], **o['cross']} for o in all_obs if o.get('cross')][:50],
@@ -399,6 +443,15 @@ def main(argv=None) -> int:
     os.makedirs(EVIDENCE_DIR, exist_ok=True)
     with open(os.path.join(EVIDENCE_DIR, f'{pid}.json'), 'w') as f:
         json.dump(evidence, f, indent=1, default=str)
+    if args.update_baseline:
+        os.makedirs(BASELINE_DIR, exist_ok=True)
+        keys = {}
+        for o in all_obs:
+            k = ob_key(o)
+            keys[k] = keys.get(k, True) and o['status'] == 'discharged'
+        with open(os.path.join(BASELINE_DIR, f'{pid}.json'), 'w') as f:
+            json.dump({'property': pid, 'tree': cur_tree, 'discharged': sorted(k for k, v in keys.items() if v)}, f, indent=0)
+        print(f'baseline updated: {sum(1 for v in keys.values() if v)} obligation keys discharged on tree {cur_tree[:12]}')
 
     for ln in lines:
         print(ln)
